@@ -526,7 +526,9 @@ class Segment:
             st["choice"] = choice
             st["manifest"] = dict(manifest)
             line = f"step {cfg} {t_mem(mem)} {disk_tokens(pre_disk)} {t_choice(choice)}"
-            out, = ctx.driver([line])
+            hyp_line = f"hyp {cfg} {t_mem(mem)} {disk_tokens(pre_disk)} {t_choice(choice)} {t_manifest(manifest)}"
+            out, hyp = ctx.driver([line, hyp_line])
+            self.judge_hypotheses(si, st, mem, pre_disk, hyp)
             if out == "bad-op":
                 ctx.disagree({"segment": self.label, "step": si}, "driver rejected the step line", line[:300])
                 self.model_ok = False
@@ -547,6 +549,32 @@ class Segment:
                 ctx.disagree({"segment": self.label, "step": si, "what": "restart record"}, code_rec, mrec)
         self.final_pinfo = pinfo
         self.final_manifest = manifest
+
+    def judge_hypotheses(self, si, st, mem, pre_disk, hyp):
+        """the HYPOTHESES of the theorems (Inv, WF, Cover, Complete: Model/FsCheck.lean, sound by
+        `hyp_checks_sound`) on the state and step outcome reconstructed from the real run"""
+        ctx = self.ctx
+        where = {"segment": self.label, "step": si, "kind": st.get("kind"), "what": "hypotheses of the theorems on a real state"}
+        if hyp == "bad-op" or "=" not in hyp:
+            ctx.disagree(where, "driver rejected the hyp line", hyp[:200])
+            return
+        fl = dict(f.split("=") for f in hyp.split())
+        if not st["inc"] and mem.get("rf") is not None and mem["rf"] == mem["cstep"]:
+            # the final write_toml of a life that made no step: restart of a FINISHED run (62f494c).  `WF.final`
+            # excludes it; `finished_run_restart_refuses`: the record it writes makes the next restart stop.
+            ctx.hit("hyp:finished-run-final-write")
+            if fl.get("wf") != "0" or fl.get("out2") != "refuses" or mem.get("steps", 0) > mem["cstep"]:
+                ctx.disagree(dict(where, what="final write right after a restart"), fl, "wf=0 out2=refuses, no steps left")
+            return
+        need = ["wf", "cover", "complete", "inv2", "complete2"]
+        if pre_disk.get("restart") is None:
+            ctx.hit("hyp:first-step-of-a-fresh-run(no record yet)")      # Inv needs a record: not a restart case
+        else:
+            need.append("inv")
+        bad = [k for k in need if fl.get(k) != "1"]
+        if bad:
+            ctx.disagree(where, {k: fl.get(k) for k in need}, f"all 1 (false: {bad})")
+        ctx.hit("hyp:steps-checked")
 
     def reorder_olds(self, mem, evs):
         """`adress` is a Python set: the order in which the trajectory files of a queued path are removed is
@@ -592,6 +620,9 @@ class Segment:
         return out
 
     def align(self, si, st):
+        for i in st["ev"]:
+            if self.events[i]["op"] == "remove" and "_move_path" in self.events[i]["tags"]:
+                self.ctx.hit("move-onto-existing-destination")      # _move_path: os.path.exists(dest) -> os.remove
         exp = self.expected_events(st)
         real = []
         for i in st["ev"]:
@@ -952,7 +983,7 @@ def enumerate_segment(ctx, seg, work, tag, depth_cb=None, limit_events=None, mod
     rjobs = []
     for c in out:
         rjobs.append({"root": c["root"], "result": c["root"] + ".restart.json", "kind": "restart",
-                      "entry": "restart.toml", "pid": seg.pid + 1111, "completion": seg.completion})
+                      "entry": "restart.toml", "pid": next_pid(seg), "completion": seg.completion})
         c["snap_missing"] = None
         tr = c["tree_restart"]
         want = tr if isinstance(tr, dict) else last_rec.get(c["k"], seg.start_rec)
@@ -967,6 +998,12 @@ def enumerate_segment(ctx, seg, work, tag, depth_cb=None, limit_events=None, mod
     for c, (rc, res) in zip(out, rres):
         c["restart"] = res or {"outcome": "harness-error", "rc": rc}
     return out
+
+
+def next_pid(seg):
+    """pid of the process life after `seg`: a new one — or, spec["same_pid"], the same one again (containers,
+    pid reuse): then the pid-named trajectory files of a redone first job collide with the interrupted store's"""
+    return seg.pid if seg.spec.get("same_pid") else seg.pid + 1111
 
 
 def seg_tmpname(seg):
@@ -1266,6 +1303,25 @@ def run_history(ctx, work, spec0, need, hist_id, depth2=0, limit2=45, case_filte
             inwin = [c for c in good if in_window(c)]
             if inwin and not any(in_window(c) for c in chosen):
                 chosen.append(([c for c in inwin if c["mode"] == "line"] or inwin)[0])
+        if spec.get("workers", 1) == 1 and (depth2 >= 2 or spec.get("same_pid")):
+            # a second life whose first step has to move a trajectory file ONTO an existing destination (_move_path:
+            # os.path.exists(dest) -> os.remove(dest); model: the isFile branch of `moveFiles`): the process died right
+            # after moving a file whose name does not carry the pid (second.lat / second_last.lat of a zero swap)
+            def moved_fixed(c):
+                e = c["ev"]
+                return (c["mode"] == "after" and e["op"] == "move" and "_move_path" in e["tags"] and e.get("dest")
+                        and str(seg.pid) not in os.path.basename(e["dest"]))
+            fx = [c for c in good if moved_fixed(c)]
+            if fx and not any(moved_fixed(c) for c in chosen):
+                chosen.append(fx[0])
+            elif not fx:
+                ctx.hit("no-crash-after-a-move-of-a-fixed-name-file")
+        if spec.get("workers", 1) == 1 and depth2 >= 2:
+            # the restart of a FINISHED run (death right before the final write_toml of loop()): its only step is the
+            # final write with restarted_from = cstep — the event `WF.final` excludes (finished_run_restart_refuses)
+            fin = [c for c in good if seg.steps[c["step"]]["kind"] == "final-write" and c["mode"] == "before"]
+            if fin and not any(seg.steps[c["step"]]["kind"] == "final-write" for c in chosen):
+                chosen.append(fin[0])
         for n2, c in enumerate(sorted(chosen, key=lambda c: c["k"])):
             second_life(ctx, seg, c, sub, hist_id, n2, limit2)
     shutil.rmtree(sub, ignore_errors=True)
@@ -1349,7 +1405,7 @@ def second_life(ctx, seg, c, work, hist_id, n2, limit2, depth=2):
     if rc != sim.CRASH_RC:
         ctx.disagree({"second_life": c["k"]}, f"rc={rc}", "crash")
         return
-    seg2 = Segment(ctx, work, seg.spec, seg.reg, start_tree=tree, pid=seg.pid + 1111, label=f"B{n2}")
+    seg2 = Segment(ctx, work, seg.spec, seg.reg, start_tree=tree, pid=next_pid(seg), label=f"B{n2}")
     seg2.chain = seg.chain + [{"k": c["k"], "mode": c["mode"]}]
     seg2.after_points = not ctx.quick
     seg2.start_rec = c["tree_restart"] if isinstance(c["tree_restart"], dict) else None
@@ -1380,6 +1436,14 @@ def second_life(ctx, seg, c, work, hist_id, n2, limit2, depth=2):
     cases = enumerate_segment(ctx, seg2, work, f"B{n2}", limit_events=limit2)
     judge(ctx, seg2, cases, hist_id)
     ctx.hit("second-life-segments" if depth == 2 else f"process-life-{depth + 1}-segments")
+    if seg.spec.get("same_pid") and depth < 3 and seg2.steps:
+        # same pid in every life: the process dies in the FIRST step of this life with a part of the trajectory files
+        # moved; the redone job of the next life writes files of the very same names (pid and counter restart)
+        mv = [i for i in seg2.steps[0]["ev"] if seg2.events[i]["op"] == "move" and "_move_path" in seg2.events[i]["tags"]]
+        tgt = [x for x in cases if x["crashed"] and x["restart"].get("outcome") == "starts" and x["mode"] == "before"
+               and x["k"] in mv[1:]]
+        if tgt:
+            second_life(ctx, seg2, tgt[0], work, hist_id, f"{n2}s", limit2, depth=depth + 1)
     # a third (fourth) process life: crash inside the second one, restart, enumerate again
     if not ctx.quick and depth < 3:
         good = [x for x in cases if x["crashed"] and x["restart"].get("outcome") == "starts" and x["step"] is not None
@@ -1407,6 +1471,8 @@ def run(ctx):
         "histories with output.keep_traj_fnames (side files) and with 2-3 workers are judged with the property predicates only (the model has no side files and one worker)",
         "'in-flight jobs recorded at the last completed step are re-issued' is checked for the first min(workers, recorded jobs) jobs: a restart with fewer workers than recorded jobs can only re-issue a prefix; the rest stays in locked0",
         "each history is ONE long-lived REPEX_state/PathStorage/engine over all its steps; a restart builds fresh objects from the same disk and is compared with the long-lived run through the continuation (tie-only, the model is functional)",
+        "the hypotheses of the theorems (Inv, WF, Cover, Complete) are evaluated by the driver (op hyp, Model/FsCheck.lean, sound by hyp_checks_sound) on every state and step outcome of the one-worker histories, reconstructed from the real effect trace and the real restart records; the first step of a fresh run has no record yet (Inv not applicable), the final write of a restarted finished run is outside WF by design (finished_run_restart_refuses)",
+        "history 'samepid': every process life has the same pid, so that a redone first job writes trajectory files of the very names an interrupted store already moved (_move_path's remove-existing-destination branch); elsewhere each life has its own fake pid",
         "a crash inside the very first step (no restart.toml yet, cstep 0) is a fresh-start case; path number 0 / ensemble 0 / cstep 0 / seed 0 / worker 0 / screen 0 occur in every history",
     ]
     try:
@@ -1433,6 +1499,9 @@ def run(ctx):
             # side files kept through output.keep_traj_fnames (+ delete_old_all): property predicates only
             ("keep", dict(base_spec, steps=8 if ctx.quick else 14, delete_old=True, delete_old_all=True,
                           keep_traj_fnames=[".aux"], screen=3), set(), 0),
+            # every process life has the SAME pid (containers / pid reuse): deaths inside _move_path of the first step
+            # of a life, the redone job's pid-named files collide with the ones already moved (three lives)
+            ("samepid", dict(base_spec, steps=7, delete_old=True, delete_old_all=True, same_pid=True), {"zs-acc"}, 1),
         ]
         if not ctx.quick:
             for r in range(2):
@@ -1452,6 +1521,9 @@ def run(ctx):
             ]
             plans += [("n4", dict(base_spec, nintf=4, moves=["sh", "sh", "wf", "sh"], steps=16, delete_old=True,
                                   delete_old_all=True), need | {"del"}, 6)]
+        def samepid_filter(e):
+            return "_move_path" in e["tags"] and e["op"] == "move"
+
         def stale_filter(e):
             return e["op"] == "move" and "_move_path" in e["tags"] and 2 <= (e.get("cstep") or 0) <= (8 if ctx.quick else 20)
 
@@ -1482,8 +1554,9 @@ def run(ctx):
                             pred=lambda seg: bool(zero_swap_of_late_paths(seg)), tries=200)
                 shutil.rmtree(work, ignore_errors=True)
                 continue
-            run_history(ctx, work, spec, nd, hist_id, depth2=depth2,
-                        case_filter=stale_filter if hist_id.startswith("stale") else None)
+            run_history(ctx, work, spec, nd, hist_id, depth2=depth2, limit2=24 if hist_id == "samepid" else 45,
+                        case_filter=stale_filter if hist_id.startswith("stale") else
+                        samepid_filter if hist_id == "samepid" else None)
             shutil.rmtree(work, ignore_errors=True)
         ctx.exhaustive = False
         if ctx.disagreements:
@@ -1518,7 +1591,7 @@ def replay(ctx, obj):
             (rc, res), = sim.runjobs([job])
             print(f"life {n}: crash {cr} -> rc={rc}, last effect {res['events'][-1]['op'] if res else None} "
                   f"{res['events'][-1]['path'] if res else None}")
-            tree, pid = root, pid + 1111
+            tree, pid = root, (pid if spec.get("same_pid") else pid + 1111)
         tr = read_restart(tree)
         (rc, res), = sim.runjobs([{"root": tree, "result": tree + ".restart.json", "kind": "restart",
                                    "entry": "restart.toml", "pid": pid, "completion": spec.get("completion", "fifo")}])
